@@ -255,14 +255,33 @@ def facts_parallels(rng):
         shots = [(guids[k], guids[k + 1] if k + 1 < nsnap else enc_hds.NULL_GUID) for k in range(nsnap)]
         top = rng.choice(guids)
         p = os.path.join(d, "DiskDescriptor.xml")
+        # the <Storage> elements may be listed in any order; the exposed disk size is the end of the last one by position
+        listed = list(storages)
+        rng.shuffle(listed)
         with open(p, "w") as fh:
-            fh.write(enc_hds.descriptor_xml(storages, shots, top_guid=top))
+            fh.write(enc_hds.descriptor_xml(listed, shots, top_guid=top))
         desc = Descriptor(Path(p))
+        storages = listed
         f = [["top_guid", top.strip("{}"), str(desc.snapshots.top_guid)], ["n_storages", ns, len(desc.storage_data.storages)],
              ["shots", repr([(a.strip("{}"), b.strip("{}")) for a, b in shots]), repr([(str(s.guid), str(s.parent)) for s in desc.snapshots.shots])]]
         for k, (st, want) in enumerate(zip(desc.storage_data.storages, storages)):
             f.append([f"storage{k}", repr((want[0], want[1], [(g.strip("{}"), t, fn) for g, t, fn in want[2]])),
                       repr((st.start, st.end, [(str(i.guid), i.type, i.file) for i in st.images]))])
+        # the assembled stream of a small split plain disk listed out of order reports the sum of its storages
+        from dissect.hypervisor.disk.hdd import HDD
+        hd = os.path.join(d, "s.hdd")
+        os.makedirs(hd)
+        sizes = [rng.choice([8, 16, 24]) for _ in range(rng.choice([2, 3, 4]))]
+        sts, pos = [], 0
+        for k, n in enumerate(sizes):
+            with open(os.path.join(hd, f"p{k}.hdd"), "wb") as fh:
+                fh.write(bytes([k + 1]) * (n * 512))
+            sts.append((pos, pos + n, [(enc_hds.DEFAULT_TOP, "Plain", f"p{k}.hdd")]))
+            pos += n
+        rng.shuffle(sts)
+        with open(os.path.join(hd, "DiskDescriptor.xml"), "w") as fh:
+            fh.write(enc_hds.descriptor_xml(sts, [(enc_hds.DEFAULT_TOP, enc_hds.NULL_GUID)]))
+        f.append(["split.size", pos * 512, HDD(Path(hd)).open().size])
         return f
     finally:
         shutil.rmtree(d, ignore_errors=True)
